@@ -176,16 +176,24 @@ class File(Suite):
                 D[rng.randrange(m)] = []          # an empty ranking (F13)
             if not any(D):
                 D[0] = [[names[0]]]
-            cases.append({"D": D})
+            # how the fresh file is designated: absolute path, bare name in the current directory, ./name, sub-directory/name
+            cases.append({"D": D, "how": rng.choice(["abs", "abs", "bare", "dot", "sub"])})
         return cases
 
     def run(self, case):
         ds = Dataset.from_raw_list([[set(b) for b in r] for r in case["D"]])
         lst = [listing(r) for r in ds.rankings]
         d = tempfile.mkdtemp(prefix="corankco_c18_")
+        cwd = os.getcwd()
         try:
-            path = os.path.join(d, "data.txt")
+            how = case.get("how", "abs")
+            if how != "abs":
+                os.chdir(d)
+                os.makedirs(os.path.join(d, "sub"), exist_ok=True)
+            path = {"abs": os.path.join(d, "data.txt"), "bare": "data.txt", "dot": "./data.txt", "sub": "sub/data.txt"}[how]
             ds.write(path)
+            if not os.path.exists(path):
+                return {"harness_exception": "NoFileWritten", "trace": f"Dataset.write({path!r}) returned but no file exists (cwd = a fresh directory)"}
             text = open(path, encoding="utf-8").read()
             try:
                 ds2 = Dataset.from_file(path)
@@ -195,6 +203,7 @@ class File(Suite):
             except Exception as e:
                 out = {"cls": 2, "v": [], "exc": type(e).__name__}
         finally:
+            os.chdir(cwd)
             shutil.rmtree(d, ignore_errors=True)
         out.update({"listing": lst, "text": text})
         return out
